@@ -77,6 +77,12 @@ prop("C02", True,
      note="Trusted: the generated lexer/parser correspond to the .g4 files; go/ssa constant folding. NOT decided: every value-level fact about the model (presence, optionality, nesting, order, names, REST path accumulation) — in particular 'optional lost inside a sequence' and 'else-branch loses statements' are invisible.",
      design="DESIGN.md §3 C02")
 
+prop("C10", True,
+     technique="operand-purity via bottom-up effect summaries of the table-registered operators, aliasing-append shapes on SSA, CFG pairing of scope-variable bind/delete/save/restore, construction-shape rules for set results, R-ORDER on pkg/eval",
+     text="Decides structural necessary conditions of 'evaluation is pure': the 40 functions registered in the operator tables (folded from the map literals) have no store, map update, append or unknown-callee hand-off through a *sysl.Value/*sysl.Expr operand in their transitive effect summary, and write the caller's scope only under their scope-variable parameter; no append extends a slice loaded from a field of a parameter's object unless the result goes back to that field, and no append on a slice parameter has its result retained in another object; every scope-variable binding is deleted on all paths, and the previous binding is saved before and written back after — at the dispatch site for table-driven where/flatten, in the calling evaluator for transforms; the set-typed transform path appends through a function whose append is skipped when an equal element exists, and set union is built from Go-map keys; no map iteration in pkg/eval reaches ordered construction unsorted. All three validated items are reported (aliasing concat, set transform without de-dup, where leaking its scope variable); the two defects this found on the pinned tree were repaired.",
+     note="Trusted: go/ssa, VTA call graph; fresh-result helpers (maps built from operand contents) do not alias operands (computed, optimistic fixpoint); reflection in goFuncs.go is outside the tables. NOT decided: agreement of any operator with the language semantics, termination of user programs.",
+     design="DESIGN.md §3 C10")
+
 for i in range(1, 21):
     pid = "C%02d" % i
     if pid not in P:
